@@ -176,7 +176,7 @@ def eval_case(ctx, case):
     with ctx.lock:
         ctx.extra.setdefault("history_samples", [])
         if len(ctx.extra["history_samples"]) < 8:
-            ctx.extra["history_samples"] += summary.get("samples", [])[:2]
+            ctx.extra["history_samples"] += (summary.get("samples") or [])[:2]
     if findings:
         f = findings[0]
         return Verdict.violated("%s.%s [%s/%s]: %s" % (f["mock"], f["method"], f["style"], f["sig"], f["what"]),
